@@ -767,13 +767,14 @@ def fam_conc(tier: str, rng: random.Random, isasync: bool = False) -> Iterator[d
                            tag="conc-parent-suspended")
     # a task created while its parent is evaluating contracts (inside a suspension window)
     for copy2 in (0, 1):
-        cons = [Con("pre", "default", False, [True, True, False], script=[Op("spawn", 2, 0, copy2)]), Con("post")]
+        # (the spawning operation is guarded by the argument: only task 1 calls f1(1), so a task never spawns itself)
+        cons = [Con("pre", "default", False, [True, True, False], script=[Op("spawn", 2, 0, copy2, when=1)]), Con("post")]
         if isasync:
             cons[0]["rv"] = "corofn"
-            cons[0]["script"] = [Op("spawn", 2, 0, copy2)] + aw
+            cons[0]["script"] = [Op("spawn", 2, 0, copy2, when=1)] + aw
         fns = [Fn("func", 0, isasync, ["chk"], [[1]], [], [2], script=aw)]
         d1 = [Op("call", 1, 0, 1)]
-        d2 = [Op("call", 1, 0, 2), Op("call", 1, 0, 1)]
+        d2 = [Op("call", 1, 0, 2), Op("call", 1, 0, 0)]
         yield Prog(fns, cons, [], [], [], [d1, d2], tag="conc-spawn-in-window")
 
 
